@@ -18,6 +18,7 @@ namespace pika {
 }    // namespace pika
 
 #if defined(PIKA_VERIF)
+#include <pika/config.hpp>
 namespace pika::verif {
     std::atomic<hook_t> hook{nullptr};
 }
